@@ -191,6 +191,10 @@ package scheduler
 //@   modifies *
 //@   ensures #own-status-untouched stage.Status == old(stage.Status)
 //@   effect no may-block before Run
+//@   callsite Run
+//@     requires #C08.runs-own-task arg0 == stage.Task
+//@     requires #C09.stage-env-over-task-env stage.Env != nil && old(stage.Task.Env) != nil ==> over(stage.Task.Env, old(stage.Task.Env), stage.Env)
+//@     requires #C10.stage-vars-over-task-vars stage.Variables != nil && old(stage.Task.Variables) != nil ==> over(stage.Task.Variables, old(stage.Task.Variables), stage.Variables)
 //@   callsite Schedule
 //@     assume stage.Status == old(stage.Status) // a stage is not a node of the pipeline it includes (see known finding: pipeline inclusion cycles)
 
